@@ -322,6 +322,9 @@ type EnumCtx struct {
 	Begin    func(group string)
 	Sum      *Summary
 	Hashes   func(h uint64, nontrivial bool) // distinct-case accounting
+	// Expired reports that the batch's wall-clock budget is used up: the
+	// enumerator stops between cases and says so in its summary.
+	Expired func() bool
 }
 
 var Registry = map[string]*Prop{}
